@@ -530,6 +530,21 @@ fn check_fixed_point(ctx: &mut Ctx, bytes: &[u8], opts: Option<u8>) {
         }
     };
     let s1 = bridge::message_to_spec(&m2);
+    // the crate's own equality on the decoded values (private fields such as raw bitmask words
+    // included), up to the control Length field
+    let same_value = match (&m, &m2) {
+        (Message::Control(a), Message::Control(b)) => a.tunnel_id == b.tunnel_id && a.session_id == b.session_id && a.ns == b.ns && a.nr == b.nr && a.avps == b.avps,
+        (Message::Data(a), Message::Data(b)) => a == b,
+        _ => false,
+    };
+    if !same_value && normalise(&s1) == normalise(&s0) {
+        let which = match (&m, &m2) {
+            (Message::Control(a), Message::Control(b)) => a.avps.iter().zip(b.avps.iter()).find(|(x, y)| x != y).map(|(x, _)| bridge::variant_name(x)).unwrap_or_default(),
+            _ => "data".to_string(),
+        };
+        viol(ctx, format!("value-drifts private-state {which}"), format!("first decode {m:?}, after re-encoding {m2:?}"));
+        return;
+    }
     if normalise(&s1) != normalise(&s0) {
         viol(
             ctx,
